@@ -178,6 +178,13 @@ func (wm *Watermark) UpdateEventTime(eventTime time.Time) {
 	wm.sendWatermarkLocked()
 }
 
+// IsFarFuture reports whether eventTime lies beyond the ceiling that
+// UpdateEventTime ignores for watermark bookkeeping (now + maxOutOfOrderness +
+// maxFutureSlack), i.e. is almost certainly a corrupt timestamp.
+func (wm *Watermark) IsFarFuture(eventTime time.Time) bool {
+	return eventTime.After(time.Now().Add(wm.maxOutOfOrderness + maxFutureSlack))
+}
+
 // GetCurrentWatermark returns the current watermark time
 func (wm *Watermark) GetCurrentWatermark() time.Time {
 	wm.mu.RLock()
